@@ -176,5 +176,11 @@ func (DefaultStatusRESTStrategy) PrepareForUpdate(ctx context.Context, obj, old 
 		accessorNew, _ := meta.Accessor(obj)
 		accessorOld, _ := meta.Accessor(old)
 		accessorNew.SetLabels(accessorOld.GetLabels())
+
+		// A status update may carry other annotations (only spec and labels are put back). That is a change of
+		// the annotations like any other: it bumps the generation.
+		if !reflect.DeepEqual(accessorNew.GetAnnotations(), accessorOld.GetAnnotations()) {
+			accessorNew.SetGeneration(accessorOld.GetGeneration() + int64(1))
+		}
 	}
 }
